@@ -35,11 +35,10 @@ func (m *Model) txnClosures() []txnClosure {
 				kind = "alloc"
 			}
 			for _, arg := range c.Common().Args {
-				switch x := arg.(type) {
-				case *ssa.MakeClosure:
-					out = append(out, txnClosure{x.Fn.(*ssa.Function), kind, fn, c})
-				case *ssa.Function:
-					out = append(out, txnClosure{x, kind, fn, c})
+				for _, t := range m.funcTargets(arg) {
+					if m.inPkg(t) {
+						out = append(out, txnClosure{t, kind, fn, c})
+					}
 				}
 			}
 		})
@@ -383,14 +382,18 @@ func (m *Model) ruleMONO(r *Results) {
 			}
 		}
 		// lock discipline: Lock + deferred Unlock on the clock's own mutex before the first store
-		locked := false
-		m.eachCall(fn, func(c ssa.CallInstruction) {
-			if _, isDefer := c.(*ssa.Defer); isDefer && isMethodCall(c.Common(), "sync", "Mutex", "Unlock") {
-				if fa, ok := c.Common().Args[0].(*ssa.FieldAddr); ok && ownerIs(fa, a.ClockType) {
-					locked = true
+		locked := true
+		for _, st := range stores {
+			has := false
+			for l := range m.heldAt(st) {
+				if l.Role == "clock-mutex" {
+					has = true
 				}
 			}
-		})
+			if !has {
+				locked = false
+			}
+		}
 		r.check(locked, rule, m.declName(fn)+" / mutex", m.pos(fn.Pos()), "runs under the clock's mutex (deferred unlock)", "updates the high-water mark without holding the clock's mutex for the whole function")
 	}
 	r.floor(rule, 4)
@@ -430,7 +433,7 @@ func (m *Model) ruleEVT1(r *Results) {
 			// find the txn runner / allocator call in this function whose error gates the post
 			var txnCall ssa.CallInstruction
 			m.eachCall(fn, func(c2 ssa.CallInstruction) {
-				if f := c2.Common().StaticCallee(); f == a.TxnRunner || f == a.Allocator {
+				if f := c2.Common().StaticCallee(); f != nil && (f == a.TxnRunner || f == a.Allocator) {
 					txnCall = c2
 				}
 			})
@@ -524,7 +527,112 @@ func (m *Model) ruleEVT45(r *Results) {
 			}
 		}
 	}
-	// EVT-5: fan-out never writes through the shared event pointer; keys-only pushes a private copy
+	// EVT-5: fan-out never writes through the shared event pointer; keys-only pushes a private copy.
+	// The fan-out's extent includes package helpers it hands the shared event to.
+	nPush := 0
+	clean := true
+	visited := map[*ssa.Function]bool{}
+	var unit func(fn *ssa.Function, evParam *ssa.Parameter, ctxKeysOnly bool)
+	unit = func(fn *ssa.Function, evParam *ssa.Parameter, ctxKeysOnly bool) {
+		if visited[fn] {
+			return
+		}
+		visited[fn] = true
+		shared := func(v ssa.Value) bool {
+			seen := map[ssa.Value]bool{}
+			var rec func(v ssa.Value) bool
+			rec = func(v ssa.Value) bool {
+				if seen[v] {
+					return false
+				}
+				seen[v] = true
+				v = stripConv(v)
+				if v == ssa.Value(evParam) {
+					return true
+				}
+				if phi, ok := v.(*ssa.Phi); ok {
+					for _, e := range phi.Edges {
+						if rec(e) {
+							return true
+						}
+					}
+				}
+				if ld, ok := v.(*ssa.UnOp); ok && ld.Op == token.MUL {
+					if al, ok := ld.X.(*ssa.Alloc); ok {
+						for _, ref := range *al.Referrers() {
+							if st, ok := ref.(*ssa.Store); ok && st.Addr == al && rec(st.Val) {
+								return true
+							}
+						}
+					}
+				}
+				return false
+			}
+			return rec(v)
+		}
+		onKeysOnly := func(b *ssa.BasicBlock) bool {
+			if ctxKeysOnly {
+				return true
+			}
+			for _, ct := range controllingConds(fn, b) {
+				if _, f, ok := fieldLoad(ct.If.Cond); ok && f.Name() == "KeysOnly" && ct.Branch {
+					return true
+				}
+			}
+			return false
+		}
+		for _, b := range fn.Blocks {
+			for _, in := range b.Instrs {
+				if st, ok := in.(*ssa.Store); ok {
+					if fa, ok := st.Addr.(*ssa.FieldAddr); ok && shared(fa.X) {
+						clean = false
+						r.bad(rule, m.declName(a.FanoutFn)+" / store through shared event", m.instrPos(st), "the fan-out writes field %s of the event object that is shared by every feed of the collection: the other feeds receive the altered event", fieldOf(fa).Name())
+					}
+				}
+			}
+		}
+		// every push pushes either the shared event or a local copy whose Value was cleared
+		m.eachCall(fn, func(c ssa.CallInstruction) {
+			callee := c.Common().StaticCallee()
+			if callee == nil {
+				return
+			}
+			if !m.isQueueMethod(callee, "push") {
+				// a helper that is handed the shared event continues the fan-out
+				if m.inPkg(callee) && len(callee.Blocks) > 0 {
+					args := c.Common().Args
+					for i, p := range callee.Params {
+						if i < len(args) && isPtrToNamed(p.Type(), sgbucketPath, "FeedEvent") && shared(args[i]) {
+							unit(callee, p, onKeysOnly(c.Block()))
+						}
+					}
+				}
+				return
+			}
+			nPush++
+			arg := c.Common().Args[len(c.Common().Args)-1]
+			key := m.declName(a.FanoutFn) + " / push"
+			if shared(arg) {
+				// must not be on the keys-only branch
+				r.check(!onKeysOnly(c.Block()), rule, key+" shared", m.instrPos(c), "full event pushed to a feed that wants values", "a keys-only feed is given the full event (with its body)")
+				return
+			}
+			al, ok := stripConv(arg).(*ssa.Alloc)
+			cleared := false
+			if ok {
+				for _, ref := range *al.Referrers() {
+					if fa, ok := ref.(*ssa.FieldAddr); ok && fieldOf(fa).Name() == "Value" {
+						for _, r2 := range *fa.Referrers() {
+							if st, ok := r2.(*ssa.Store); ok && isNilConst(st.Val) {
+								cleared = true
+							}
+						}
+					}
+				}
+			}
+			r.check(ok && cleared, rule, key+" private copy", m.instrPos(c), "keys-only feeds get a private copy with Value cleared", "pushed event is neither the shared event nor a private copy with Value cleared")
+		})
+	}
 	fn := a.FanoutFn
 	var evParam *ssa.Parameter
 	for _, p := range fn.Params {
@@ -532,88 +640,10 @@ func (m *Model) ruleEVT45(r *Results) {
 			evParam = p
 		}
 	}
-	shared := func(v ssa.Value) bool {
-		seen := map[ssa.Value]bool{}
-		var rec func(v ssa.Value) bool
-		rec = func(v ssa.Value) bool {
-			if seen[v] {
-				return false
-			}
-			seen[v] = true
-			v = stripConv(v)
-			if v == ssa.Value(evParam) {
-				return true
-			}
-			if phi, ok := v.(*ssa.Phi); ok {
-				for _, e := range phi.Edges {
-					if rec(e) {
-						return true
-					}
-				}
-			}
-			if ld, ok := v.(*ssa.UnOp); ok && ld.Op == token.MUL {
-				if al, ok := ld.X.(*ssa.Alloc); ok {
-					for _, ref := range *al.Referrers() {
-						if st, ok := ref.(*ssa.Store); ok && st.Addr == al && rec(st.Val) {
-							return true
-						}
-					}
-				}
-			}
-			return false
-		}
-		return rec(v)
-	}
-	clean := true
-	for _, b := range fn.Blocks {
-		for _, in := range b.Instrs {
-			if st, ok := in.(*ssa.Store); ok {
-				if fa, ok := st.Addr.(*ssa.FieldAddr); ok && shared(fa.X) {
-					clean = false
-					r.bad(rule, m.declName(fn)+" / store through shared event", m.instrPos(st), "the fan-out writes field %s of the event object that is shared by every feed of the collection: the other feeds receive the altered event", fieldOf(fa).Name())
-				}
-			}
-		}
-	}
+	unit(fn, evParam, false)
 	if clean {
 		r.ok(rule, m.declName(fn)+" / shared event is read-only", m.pos(fn.Pos()), "no store through the shared *FeedEvent")
 	}
-	// every push in the fan-out pushes either the shared event or a local copy whose Value was cleared
-	nPush := 0
-	m.eachCall(fn, func(c ssa.CallInstruction) {
-		callee := c.Common().StaticCallee()
-		if callee == nil || !m.isQueueMethod(callee, "push") {
-			return
-		}
-		nPush++
-		arg := c.Common().Args[len(c.Common().Args)-1]
-		key := m.declName(fn) + " / push"
-		if shared(arg) {
-			// must not be on the keys-only branch
-			onKeysOnly := false
-			for _, ct := range controllingConds(fn, c.Block()) {
-				if _, f, ok := fieldLoad(ct.If.Cond); ok && f.Name() == "KeysOnly" && ct.Branch {
-					onKeysOnly = true
-				}
-			}
-			r.check(!onKeysOnly, rule, key+" shared", m.instrPos(c), "full event pushed to a feed that wants values", "a keys-only feed is given the full event (with its body)")
-			return
-		}
-		al, ok := stripConv(arg).(*ssa.Alloc)
-		cleared := false
-		if ok {
-			for _, ref := range *al.Referrers() {
-				if fa, ok := ref.(*ssa.FieldAddr); ok && fieldOf(fa).Name() == "Value" {
-					for _, r2 := range *fa.Referrers() {
-						if st, ok := r2.(*ssa.Store); ok && isNilConst(st.Val) {
-							cleared = true
-						}
-					}
-				}
-			}
-		}
-		r.check(ok && cleared, rule, key+" private copy", m.instrPos(c), "keys-only feeds get a private copy with Value cleared", "pushed event is neither the shared event nor a private copy with Value cleared")
-	})
 	if nPush < 2 {
 		r.undecided(rule, m.declName(fn)+" / pushes", m.pos(fn.Pos()), "expected a push for keys-only feeds and one for ordinary feeds, found %d", nPush)
 	}
@@ -757,12 +787,12 @@ func (m *Model) ruleONETXN(r *Results) {
 	}
 	memo := map[*ssa.Function]int{}
 	for _, fn := range m.Funcs {
-		if fn.Parent() != nil || fn == a.TxnRunner {
+		if fn.Parent() != nil || fn == a.TxnRunner || m.onTxnChain(fn) {
 			continue
 		}
 		var direct []ssa.CallInstruction
 		m.eachCall(fn, func(c ssa.CallInstruction) {
-			if f := c.Common().StaticCallee(); f == a.TxnRunner || (f == a.Allocator && fn != a.Allocator) {
+			if f := c.Common().StaticCallee(); f != nil && (f == a.TxnRunner || (f == a.Allocator && fn != a.Allocator)) {
 				direct = append(direct, c)
 			}
 		})
@@ -935,6 +965,9 @@ func (m *Model) ruleCLOSED(r *Results) {
 	for _, f := range a.PoolFns {
 		allowed[f] = "pool accessor"
 	}
+	for _, cf := range a.TxnChain {
+		allowed[cf] = "transaction runner"
+	}
 	allowed[a.TxnRunner] = "transaction runner"
 	allowed[a.ShutdownFn] = "shutdown routine"
 	allowed[a.CloneFn] = "handle copy"
@@ -964,16 +997,7 @@ func (m *Model) ruleCLOSED(r *Results) {
 					if isStoreOnly {
 						continue
 					}
-					c := newCut()
-					found := false
-					for _, iff := range allIfs(fn) {
-						cd := condOf(iff)
-						if _, f, ok := fieldLoad(cd.X); ok && f == a.ClosedField && cd.Op == token.ILLEGAL {
-							c.cutEdge(iff.Block(), cd.succWhen(false)) // cut "not closed"
-							found = true
-						}
-					}
-					r.check(found && !entryReach(fn, c)[fa.Block().Index], rule, key+" behind closed test", m.instrPos(fa), why+" uses the DB only when the handle is not closed", why+" can use the database although the handle is closed (no dominating test of the closed flag)")
+					r.check(m.closedGuarded(fn, fa, 0), rule, key+" behind closed test", m.instrPos(fa), why+" uses the DB only when the handle is not closed", why+" can use the database although the handle is closed (no dominating test of the closed flag)")
 				} else {
 					r.ok(rule, key, m.instrPos(fa), "%s", why)
 				}
@@ -1129,12 +1153,11 @@ func (m *Model) ruleROWBUF(r *Results) {
 			}
 			n++
 			key := m.declName(fn) + " / returned row"
-			call, ok := v.(*ssa.Call)
-			if !ok || call.Common().StaticCallee() == nil || call.Common().StaticCallee().Name() != "Bytes" {
+			local, seen := m.freshBytes(v, 0)
+			if !seen {
 				r.undecided(rule, key, m.instrPos(ret), "cannot see where the returned row bytes come from")
 				continue
 			}
-			_, local := stripConv(call.Common().Args[0]).(*ssa.Alloc)
 			r.check(local, rule, key, m.instrPos(ret), "each row is returned in a buffer allocated by that call", "the returned row aliases a buffer that lives in the iterator and is overwritten by the next row: callers that keep rows (the pre-recorded iterator of in-memory buckets) see every row replaced by the last")
 		}
 	}
@@ -1185,4 +1208,86 @@ func (m *Model) markInstrs(fn *ssa.Function) []ssa.Instruction {
 		}
 	})
 	return out
+}
+
+func (m *Model) onTxnChain(fn *ssa.Function) bool {
+	for _, f := range m.A.TxnChain {
+		if f == fn {
+			return true
+		}
+	}
+	return false
+}
+
+// closedGuarded: instruction `at` of f executes only when the handle is not closed: guarded by
+// a test of the closed flag in f itself, or (for functions on the transaction-runner chain) at
+// every call site further out.
+func (m *Model) closedGuarded(f *ssa.Function, at ssa.Instruction, depth int) bool {
+	a := &m.A
+	c := newCut()
+	found := false
+	for _, iff := range allIfs(f) {
+		cd := condOf(iff)
+		if _, fl, ok := fieldLoad(cd.X); ok && fl == a.ClosedField && cd.Op == token.ILLEGAL {
+			c.cutEdge(iff.Block(), cd.succWhen(false))
+			found = true
+		}
+	}
+	if found && !entryReach(f, c)[at.Block().Index] {
+		return true
+	}
+	if depth > 4 || !m.onTxnChain(f) || f == a.TxnRunner {
+		return false
+	}
+	callers := m.staticCallersOf(f)
+	if len(callers) == 0 {
+		return false
+	}
+	for _, cs := range callers {
+		if !m.closedGuarded(cs.Parent(), cs, depth+1) {
+			return false
+		}
+	}
+	return true
+}
+
+// freshBytes: v is the Bytes() of a buffer allocated by the current call, directly or as the
+// result of a package helper all of whose non-nil results are. seen=false when the origin of the
+// bytes is not visible.
+func (m *Model) freshBytes(v ssa.Value, depth int) (fresh, seen bool) {
+	v = stripConv(v)
+	if phi, ok := v.(*ssa.Phi); ok {
+		fresh, seen = true, true
+		for _, e := range phi.Edges {
+			if isNilConst(stripConv(e)) {
+				continue
+			}
+			f, s := m.freshBytes(e, depth)
+			fresh, seen = fresh && f, seen && s
+		}
+		return
+	}
+	call, ok := v.(*ssa.Call)
+	if !ok || call.Common().StaticCallee() == nil {
+		return false, false
+	}
+	callee := call.Common().StaticCallee()
+	if callee.Name() == "Bytes" && callee.Pkg != nil && callee.Pkg.Pkg.Path() == "bytes" {
+		_, local := stripConv(call.Common().Args[0]).(*ssa.Alloc)
+		return local, true
+	}
+	if m.inPkg(callee) && depth < 3 && len(callee.Blocks) > 0 {
+		fresh, seen = true, true
+		any := false
+		for _, ret := range returnsOf(callee) {
+			if len(ret.Results) != 1 || isNilConst(stripConv(ret.Results[0])) {
+				continue
+			}
+			any = true
+			f, s := m.freshBytes(ret.Results[0], depth+1)
+			fresh, seen = fresh && f, seen && s
+		}
+		return fresh && any, seen && any
+	}
+	return false, false
 }
